@@ -36,7 +36,7 @@ package cloudprovider
 //@ iface cloudprovider.NodeGroup.DeleteNodes(n, nodes) (err)
 //@   modifies Jlen, Jkind, Jname, Jnode, Jok
 //@   ensures Jlen == old(Jlen) + len(nodes)
-//@   ensures forall i :: 0 <= i && i < len(nodes) ==> Jkind[old(Jlen) + i] == C_DELNODE && Jnode[old(Jlen) + i] == nodes[i] && Jname[old(Jlen) + i] == nodes[i].Name && Jok[old(Jlen) + i] == (err == nil)
+//@   ensures forall k :: old(Jlen) <= k && k < Jlen ==> Jkind[k] == C_DELNODE && Jnode[k] == nodes[k - old(Jlen)] && Jname[k] == nodes[k - old(Jlen)].Name && Jok[k] == (err == nil)
 //@   ensures forall k :: k < old(Jlen) ==> Jkind[k] == old(Jkind)[k] && Jname[k] == old(Jname)[k] && Jok[k] == old(Jok)[k] && Jnode[k] == old(Jnode)[k]
 //@   ensures isNotInGroup(err) ==> err != nil
 
